@@ -613,6 +613,10 @@ func restartScenario(name string, sh shape, mesosStates, newEnv bool, q, t vrt.B
 // life resubscribes; when everything has settled the statement must hold all the same: same framework identity on
 // every subscription, every task of the previous life asked to terminate and dead.
 func restartScenarioX(name string, sh shape, mesosStates, newEnv, reconnect2 bool, q, t vrt.Bounds) *vrt.Scenario {
+	return restartScenarioY(name, sh, mesosStates, newEnv, reconnect2, false, q, t)
+}
+
+func restartScenarioY(name string, sh shape, mesosStates, newEnv, reconnect2, earlyEnv bool, q, t vrt.Bounds) *vrt.Scenario {
 	var o restartObs
 	var s *sim
 	body := func() {
@@ -661,7 +665,31 @@ func restartScenarioX(name string, sh shape, mesosStates, newEnv, reconnect2 boo
 		if reconnect2 {
 			s.mode, s.faultLife, s.armed, s.faultAt = "reconnect", 2, true, ""
 		}
-		startCore(w, s)
+		earlyID, earlyDone := "", false
+		_ = earlyDone
+		if earlyEnv {
+			// the operator's next request is already there when the new life starts: the creation of a fresh
+			// environment runs while the core subscribes and the master answers the reconciliation
+			// (the master answers the reconciliation a little later than at once, the offers later still)
+			s.m.ReconcileDelay, s.m.OfferDelay = 5*time.Millisecond, 10*time.Millisecond
+			the.ResetEventWritersForVerif()
+			w.Life++
+			c, err := core.NewCoreForVerif(&link{s, w.Life})
+			if err != nil {
+				panic(err)
+			}
+			w.Core = c
+			s.cores[w.Life] = c
+			earlyDone = false
+			vrt.GoFG("early-create", func() {
+				earlyID, o.newEnvState, o.newEnvErr = w.Create(sh.wfs[0], nil)
+				earlyDone = true
+			})
+			vrt.WaitUntil("early-create-done", func() bool { return earlyDone })
+			vrt.Quiesce("core-start")
+		} else {
+			startCore(w, s)
+		}
 		settle(5 * time.Second)
 		if reconnect2 {
 			// unacknowledged status updates are retried by the agents after statusRetry
@@ -684,6 +712,17 @@ func restartScenarioX(name string, sh shape, mesosStates, newEnv, reconnect2 boo
 		o.survivors = s.alive()
 		o.envs2 = envsOf(w)
 		o.tasks2 = tasksOf(w)
+		if earlyEnv {
+			// the environment asked for in this life, and the tasks this life launched, belong to it
+			delete(o.envs2, earlyID)
+			var prev []string
+			for _, id := range o.tasks2 {
+				if s.taskLife[id] != w.Life {
+					prev = append(prev, id)
+				}
+			}
+			o.tasks2 = prev
+		}
 		kills := 0
 		for _, c := range o.life2Calls {
 			if c.Type == "KILL" {
@@ -693,6 +732,13 @@ func restartScenarioX(name string, sh shape, mesosStates, newEnv, reconnect2 boo
 		sub := "-"
 		if len(o.life2Sub) > 0 {
 			sub = o.life2Sub[0].FID
+		}
+		if earlyEnv {
+			seq := ""
+			for _, c := range o.life2Calls {
+				seq += fmt.Sprintf(" %s@%v", c.Type, c.VT)
+			}
+			vrt.Logf("life 2 calls:%s", seq)
 		}
 		vrt.Logf("crash %s | master: fid=%s alive=%s | life2: subscribe fid=%q kills=%d survivors=%s envs=%d tasks=%d",
 			o.faultAt, o.life1FID, states(o.aliveAtCrash), sub, kills, states(o.survivors), len(o.envs2), len(o.tasks2))
@@ -1101,5 +1147,6 @@ func main() {
 		restartScenarioX("restart-reconnect", shapes["two"], false, false, true, q0, t1),
 		restartScenario("restart-cleanup", shapes["cleanup"], false, false, q0, t1),
 		overlapScenario("reconnect-overlap", q0, t1),
+		restartScenarioY("restart-earlyenv", shapes["one"], false, false, false, true, q0, t1),
 	})
 }
